@@ -436,3 +436,404 @@ Theorem mov_name_clash_is_error :
 Proof. exact Hoisting.mov_name_clash_is_error. Qed.
 Print Assumptions mov_name_clash_is_error.
 
+
+(* ---- whole programs (HoistProgram.v). cmds / named_cmds: every command of every script body and inline map-script body at any
+   depth, AutoVar commands in front of conditions included. program_commands_hoisted, program_inline_arguments: every such
+   command comes from a run of command_stmt at a position of the program's token stream; an argument without inline data is
+   unchanged, an argument with an inline text / moves() is the label of that item in the final hoisting table.
+   inline_text_label / inline_moves_label: that label names exactly ONE text (movement) of the program, local, with exactly the
+   written content after terminator / format() processing and the written type; its block is in the output and no other line
+   of the text section defines it; two items share a label IFF type and content coincide; the name is <script>_Text_<n> of
+   the first appearance in source order, n = the labels that script owned before. inline_*_argument_defined,
+   inline_arguments_share_labels, inline_argument_names; compiled_*: the same from the source text. Not claimed: uniqueness
+   in the WHOLE output - Examples.label_defined_twice_in_output: a script the author names S_Text_0 clashes (boundary B2). ---- *)
+From Pory Require HoistProgram. Open Scope list_scope.
+Theorem program_commands_hoisted :
+  forall (autovars : list (text * autovar)) (switches : list (text * text)) (ee : bool)
+    (parse_format : toks -> res (token * text * text * toks)),
+  (forall (ts : toks) (tk : token) (v sty : text) (ts' : toks),
+   parse_format ts = Ok (tk, v, sty, ts') -> forall a : toks, Consume.advs a ts -> Consume.advs a ts') ->
+  forall (T : toks) (p : program),
+  parse_program autovars switches ee parse_format T = Ok p ->
+  exists st : pstate,
+    parse_tops autovars switches ee parse_format (5 * length T + 4) pstate0 T = Ok st /\
+    HoistProgram.all_hoisted switches ee parse_format T (ph st) (HoistProgram.named_cmds (tops p)).
+Proof. exact HoistProgram.program_commands_hoisted. Qed.
+Print Assumptions program_commands_hoisted.
+
+Theorem program_inline_arguments :
+  forall (autovars : list (text * autovar)) (switches : list (text * text)) (ee : bool)
+    (parse_format : toks -> res (token * text * text * toks)),
+  (forall (ts : toks) (tk : token) (v sty : text) (ts' : toks),
+   parse_format ts = Ok (tk, v, sty, ts') -> forall a : toks, Consume.advs a ts -> Consume.advs a ts') ->
+  forall (T : toks) (p : program),
+  parse_program autovars switches ee parse_format T = Ok p ->
+  exists st : pstate,
+    parse_tops autovars switches ee parse_format (5 * length T + 4) pstate0 T = Ok st /\
+    (forall (script : text) (c : cmd),
+     In (script, c) (HoistProgram.named_cmds (tops p)) ->
+     exists (c0 : cmd) (impc : impdata),
+       HoistProgram.orig switches ee parse_format T script c0 impc /\
+       cname c = cname c0 /\
+       ctok c = ctok c0 /\
+       cid c = cid c0 /\
+       length (cargs c) = length (cargs c0) /\
+       (forall k : nat,
+        filter (HoistProgram.argT k) (idT impc) = [] ->
+        filter (HoistProgram.argM k) (idM impc) = [] -> nth_error (cargs c) k = nth_error (cargs c0) k) /\
+       (forall (k : nat) (pre0 : list imptext) (it : imptext),
+        filter (HoistProgram.argT k) (idT impc) = pre0 ++ [it] ->
+        filter (HoistProgram.argM k) (idM impc) = [] -> exists l : text, nth_error (cargs c) k = Some l /\ HoistProgram.tlabel (ph st) it l) /\
+       (forall (k : nat) (pre0 : list impmov) (im : impmov),
+        filter (HoistProgram.argM k) (idM impc) = pre0 ++ [im] ->
+        exists l : text, nth_error (cargs c) k = Some l /\ HoistProgram.mlabel (ph st) im l) /\
+       (forall it : imptext,
+        In it (idT impc) ->
+        itCid it = cid c /\
+        itArg it < length (cargs c) /\
+        itScript it = script /\
+        (exists v : text, tlit (itTok it) = terminate v (itType it)) /\ (exists l : text, HoistProgram.tlabel (ph st) it l)) /\
+       (forall im : impmov,
+        In im (idM impc) ->
+        imCid im = cid c /\
+        imArg im < length (cargs c) /\ imScript im = script /\ imCmdTok im = ctok c /\ (exists l : text, HoistProgram.mlabel (ph st) im l))).
+Proof. exact HoistProgram.program_inline_arguments. Qed.
+Print Assumptions program_inline_arguments.
+
+Theorem program_command_sites :
+  forall (autovars : list (text * autovar)) (switches : list (text * text)) (ee : bool)
+    (parse_format : toks -> res (token * text * text * toks)) (T : toks) (p : program) (body : list stmt) (c : cmd),
+  parse_program autovars switches ee parse_format T = Ok p ->
+  In body (ProgWf.bodies_of (tops p)) -> HoistProgram.cmd_at c body -> exists script : text, In (script, c) (HoistProgram.named_cmds (tops p)).
+Proof. exact HoistProgram.program_command_sites. Qed.
+Print Assumptions program_command_sites.
+
+Theorem inline_text_label :
+  forall (autovars : list (text * autovar)) (switches : list (text * text)) (ee : bool)
+    (parse_format : toks -> res (token * text * text * toks)),
+  ee = true ->
+  forall (T : toks) (p : program) (st : pstate) (it : imptext) (l : text),
+  parse_program autovars switches ee parse_format T = Ok p ->
+  parse_tops autovars switches ee parse_format (5 * length T + 4) pstate0 T = Ok st ->
+  HoistProgram.tlabel (ph st) it l ->
+  (exists x : textdef,
+     In x (texts p) /\
+     xname x = l /\
+     xvalue x = tlit (itTok it) /\
+     xtype x = itType it /\
+     xglob x = false /\
+     (forall y : textdef, In y (texts p) -> xname y = l -> y = x) /\
+     length (filter (fun y : textdef => text_eqb (xname y) l) (texts p)) = 1 /\
+     (forall (optimize : bool) (mp : option text) (out : list Emitter.instr),
+      Emitter.emit_program_instrs optimize mp p = Emitter.Ok out ->
+      exists (a : list Emitter.instr) (n : nat) (pre post : list Emitter.instr),
+        out = a ++ Emitter.emit_texts mp (texts p) n /\
+        Emitter.emit_texts mp (texts p) n = pre ++ Emitter.emit_text mp x ++ post /\
+        filter (HoistProgram.is_label l) (Emitter.emit_texts mp (texts p) n) = [Emitter.ILabel l false])) /\
+  (forall (it' : imptext) (l' : text), HoistProgram.tlabel (ph st) it' l' -> tkey it = tkey it' <-> l = l') /\
+  (exists (imps : list impdata) (pss : list (list patch)) (A : list imptext) (fo : imptext) (B P Q : list imptext),
+     hoist_all imps hst0 = (ph st, pss) /\
+     Forall (parsed_imp autovars switches ee parse_format) imps /\
+     new_texts [] (flat_map idT imps) = A ++ fo :: B /\
+     tkey fo = tkey it /\
+     flat_map idT imps = P ++ fo :: Q /\ ~ In (tkey it) (map tkey P) /\ l = text_label (itScript fo) (owned (itScript fo) (map itScript A))).
+Proof. exact HoistProgram.inline_text_label. Qed.
+Print Assumptions inline_text_label.
+
+Theorem inline_moves_label :
+  forall (autovars : list (text * autovar)) (switches : list (text * text)) (ee : bool)
+    (parse_format : toks -> res (token * text * text * toks)),
+  ee = true ->
+  forall (T : toks) (p : program) (st : pstate) (im : impmov) (l : text),
+  parse_program autovars switches ee parse_format T = Ok p ->
+  parse_tops autovars switches ee parse_format (5 * length T + 4) pstate0 T = Ok st ->
+  HoistProgram.mlabel (ph st) im l ->
+  (exists (tk : token) (steps : list token),
+     In (TMovement l false tk steps) (tops p) /\
+     mov_key steps = mov_key (imToks im) /\
+     (Forall no_colon steps -> Forall no_colon (imToks im) -> map tlit steps = map tlit (imToks im)) /\
+     (forall (g' : bool) (tk' : token) (steps' : list token),
+      In (TMovement l g' tk' steps') (tops p) -> g' = false /\ tk' = tk /\ steps' = steps) /\
+     length (filter (is_mov_named l) (tops p)) = 1 /\
+     (forall (optimize : bool) (mp : option text) (out : list Emitter.instr),
+      Emitter.emit_program_instrs optimize mp p = Emitter.Ok out ->
+      exists a b : list Emitter.instr, out = a ++ Emitter.emit_movement mp l false tk steps ++ b)) /\
+  (forall (im' : impmov) (l' : text), HoistProgram.mlabel (ph st) im' l' -> mkey im = mkey im' <-> l = l') /\
+  (exists (imps : list impdata) (pss : list (list patch)) (A : list impmov) (fo : impmov) (B P Q : list impmov),
+     hoist_all imps hst0 = (ph st, pss) /\
+     Forall (parsed_imp autovars switches ee parse_format) imps /\
+     new_movs [] (flat_map idM imps) = A ++ fo :: B /\
+     mkey fo = mkey im /\
+     flat_map idM imps = P ++ fo :: Q /\ ~ In (mkey im) (map mkey P) /\ l = mov_label (imScript fo) (owned (imScript fo) (map imScript A))).
+Proof. exact HoistProgram.inline_moves_label. Qed.
+Print Assumptions inline_moves_label.
+
+Theorem inline_text_argument_defined :
+  forall (autovars : list (text * autovar)) (switches : list (text * text)) (parse_format : toks -> res (token * text * text * toks)),
+  (forall (ts : toks) (tk : token) (v sty : text) (ts' : toks),
+   parse_format ts = Ok (tk, v, sty, ts') -> forall a : toks, Consume.advs a ts -> Consume.advs a ts') ->
+  forall (T : toks) (p : program),
+  parse_program autovars switches true parse_format T = Ok p ->
+  forall (script : text) (c : cmd),
+  In (script, c) (HoistProgram.named_cmds (tops p)) ->
+  exists (c0 : cmd) (impc : impdata),
+    HoistProgram.orig switches true parse_format T script c0 impc /\
+    cname c = cname c0 /\
+    ctok c = ctok c0 /\
+    cid c = cid c0 /\
+    (forall (k : nat) (pre0 : list imptext) (it : imptext),
+     filter (HoistProgram.argT k) (idT impc) = pre0 ++ [it] ->
+     filter (HoistProgram.argM k) (idM impc) = [] ->
+     exists (l : text) (x : textdef),
+       nth_error (cargs c) k = Some l /\
+       itScript it = script /\
+       (exists v : text, tlit (itTok it) = terminate v (itType it)) /\
+       In x (texts p) /\
+       xname x = l /\
+       xvalue x = tlit (itTok it) /\
+       xtype x = itType it /\
+       xglob x = false /\
+       (forall y : textdef, In y (texts p) -> xname y = l -> y = x) /\
+       (forall (optimize : bool) (mp : option text) (out : list Emitter.instr),
+        Emitter.emit_program_instrs optimize mp p = Emitter.Ok out ->
+        exists (a : list Emitter.instr) (n : nat) (pre post : list Emitter.instr),
+          out = a ++ Emitter.emit_texts mp (texts p) n /\
+          Emitter.emit_texts mp (texts p) n = pre ++ Emitter.emit_text mp x ++ post /\
+          filter (HoistProgram.is_label l) (Emitter.emit_texts mp (texts p) n) = [Emitter.ILabel l false])).
+Proof. exact HoistProgram.inline_text_argument_defined. Qed.
+Print Assumptions inline_text_argument_defined.
+
+Theorem inline_moves_argument_defined :
+  forall (autovars : list (text * autovar)) (switches : list (text * text)) (parse_format : toks -> res (token * text * text * toks)),
+  (forall (ts : toks) (tk : token) (v sty : text) (ts' : toks),
+   parse_format ts = Ok (tk, v, sty, ts') -> forall a : toks, Consume.advs a ts -> Consume.advs a ts') ->
+  forall (T : toks) (p : program),
+  parse_program autovars switches true parse_format T = Ok p ->
+  forall (script : text) (c : cmd),
+  In (script, c) (HoistProgram.named_cmds (tops p)) ->
+  exists (c0 : cmd) (impc : impdata),
+    HoistProgram.orig switches true parse_format T script c0 impc /\
+    cname c = cname c0 /\
+    ctok c = ctok c0 /\
+    cid c = cid c0 /\
+    (forall (k : nat) (pre0 : list impmov) (im : impmov),
+     filter (HoistProgram.argM k) (idM impc) = pre0 ++ [im] ->
+     exists (l : text) (tk : token) (steps : list token),
+       nth_error (cargs c) k = Some l /\
+       imScript im = script /\
+       In (TMovement l false tk steps) (tops p) /\
+       mov_key steps = mov_key (imToks im) /\
+       (Forall no_colon steps -> Forall no_colon (imToks im) -> map tlit steps = map tlit (imToks im)) /\
+       (forall (g' : bool) (tk' : token) (steps' : list token),
+        In (TMovement l g' tk' steps') (tops p) -> g' = false /\ tk' = tk /\ steps' = steps) /\
+       (forall (optimize : bool) (mp : option text) (out : list Emitter.instr),
+        Emitter.emit_program_instrs optimize mp p = Emitter.Ok out ->
+        exists a b : list Emitter.instr, out = a ++ Emitter.emit_movement mp l false tk steps ++ b)).
+Proof. exact HoistProgram.inline_moves_argument_defined. Qed.
+Print Assumptions inline_moves_argument_defined.
+
+Theorem inline_arguments_share_labels :
+  forall (autovars : list (text * autovar)) (switches : list (text * text)) (parse_format : toks -> res (token * text * text * toks)),
+  (forall (ts : toks) (tk : token) (v sty : text) (ts' : toks),
+   parse_format ts = Ok (tk, v, sty, ts') -> forall a : toks, Consume.advs a ts -> Consume.advs a ts') ->
+  forall (T : toks) (p : program),
+  parse_program autovars switches true parse_format T = Ok p ->
+  forall (s1 : text) (c1 : cmd) (s2 : text) (c2 : cmd),
+  In (s1, c1) (HoistProgram.named_cmds (tops p)) ->
+  In (s2, c2) (HoistProgram.named_cmds (tops p)) ->
+  exists (c01 : cmd) (impc1 : impdata) (c02 : cmd) (impc2 : impdata),
+    HoistProgram.orig switches true parse_format T s1 c01 impc1 /\
+    cid c1 = cid c01 /\
+    HoistProgram.orig switches true parse_format T s2 c02 impc2 /\
+    cid c2 = cid c02 /\
+    (forall (k1 : nat) (p1 : list imptext) (it1 : imptext) (k2 : nat) (p2 : list imptext) (it2 : imptext),
+     filter (HoistProgram.argT k1) (idT impc1) = p1 ++ [it1] ->
+     filter (HoistProgram.argM k1) (idM impc1) = [] ->
+     filter (HoistProgram.argT k2) (idT impc2) = p2 ++ [it2] ->
+     filter (HoistProgram.argM k2) (idM impc2) = [] -> nth_error (cargs c1) k1 = nth_error (cargs c2) k2 <-> tkey it1 = tkey it2) /\
+    (forall (k1 : nat) (p1 : list impmov) (im1 : impmov) (k2 : nat) (p2 : list impmov) (im2 : impmov),
+     filter (HoistProgram.argM k1) (idM impc1) = p1 ++ [im1] ->
+     filter (HoistProgram.argM k2) (idM impc2) = p2 ++ [im2] -> nth_error (cargs c1) k1 = nth_error (cargs c2) k2 <-> mkey im1 = mkey im2).
+Proof. exact HoistProgram.inline_arguments_share_labels. Qed.
+Print Assumptions inline_arguments_share_labels.
+
+Theorem inline_argument_names :
+  forall (autovars : list (text * autovar)) (switches : list (text * text)) (parse_format : toks -> res (token * text * text * toks)),
+  (forall (ts : toks) (tk : token) (v sty : text) (ts' : toks),
+   parse_format ts = Ok (tk, v, sty, ts') -> forall a : toks, Consume.advs a ts -> Consume.advs a ts') ->
+  forall (T : toks) (p : program),
+  parse_program autovars switches true parse_format T = Ok p ->
+  exists imps : list impdata,
+    Forall (parsed_imp autovars switches true parse_format) imps /\
+    (forall (script : text) (c : cmd),
+     In (script, c) (HoistProgram.named_cmds (tops p)) ->
+     exists (c0 : cmd) (impc : impdata),
+       HoistProgram.orig switches true parse_format T script c0 impc /\
+       cid c = cid c0 /\
+       (forall (k : nat) (pre0 : list imptext) (it : imptext),
+        filter (HoistProgram.argT k) (idT impc) = pre0 ++ [it] ->
+        filter (HoistProgram.argM k) (idM impc) = [] ->
+        exists (A : list imptext) (fo : imptext) (B P Q : list imptext),
+          new_texts [] (flat_map idT imps) = A ++ fo :: B /\
+          tkey fo = tkey it /\
+          flat_map idT imps = P ++ fo :: Q /\
+          ~ In (tkey it) (map tkey P) /\ nth_error (cargs c) k = Some (text_label (itScript fo) (owned (itScript fo) (map itScript A)))) /\
+       (forall (k : nat) (pre0 : list impmov) (im : impmov),
+        filter (HoistProgram.argM k) (idM impc) = pre0 ++ [im] ->
+        exists (A : list impmov) (fo : impmov) (B P Q : list impmov),
+          new_movs [] (flat_map idM imps) = A ++ fo :: B /\
+          mkey fo = mkey im /\
+          flat_map idM imps = P ++ fo :: Q /\
+          ~ In (mkey im) (map mkey P) /\ nth_error (cargs c) k = Some (mov_label (imScript fo) (owned (imScript fo) (map imScript A))))).
+Proof. exact HoistProgram.inline_argument_names. Qed.
+Print Assumptions inline_argument_names.
+
+Theorem compiled_commands_are_patched_commands :
+  forall (hl hd hs : N -> bool) (autovars : list (text * autovar)) (switches : list (text * text)) (fc : Format.fontcfg) 
+    (cli_font : text) (cli_maxlen : Z) (s : text) (p : program),
+  parse_program autovars switches true (Format.parse_format fc cli_font cli_maxlen true) (lex hl hd hs s) = Ok p ->
+  exists st : pstate,
+    parse_tops autovars switches true (Format.parse_format fc cli_font cli_maxlen true) (5 * length (lex hl hd hs s) + 4) pstate0
+      (lex hl hd hs s) = Ok st /\
+    (forall (script : text) (c : cmd),
+     In (script, c) (HoistProgram.named_cmds (tops p)) ->
+     exists (c0 : cmd) (impc : impdata),
+       HoistProgram.orig switches true (Format.parse_format fc cli_font cli_maxlen true) (lex hl hd hs s) script c0 impc /\
+       cname c = cname c0 /\
+       ctok c = ctok c0 /\
+       cid c = cid c0 /\
+       length (cargs c) = length (cargs c0) /\
+       (forall k : nat,
+        filter (HoistProgram.argT k) (idT impc) = [] ->
+        filter (HoistProgram.argM k) (idM impc) = [] -> nth_error (cargs c) k = nth_error (cargs c0) k) /\
+       (forall (k : nat) (pre0 : list imptext) (it : imptext),
+        filter (HoistProgram.argT k) (idT impc) = pre0 ++ [it] ->
+        filter (HoistProgram.argM k) (idM impc) = [] -> exists l : text, nth_error (cargs c) k = Some l /\ HoistProgram.tlabel (ph st) it l) /\
+       (forall (k : nat) (pre0 : list impmov) (im : impmov),
+        filter (HoistProgram.argM k) (idM impc) = pre0 ++ [im] ->
+        exists l : text, nth_error (cargs c) k = Some l /\ HoistProgram.mlabel (ph st) im l) /\
+       (forall it : imptext,
+        In it (idT impc) ->
+        itCid it = cid c /\
+        itArg it < length (cargs c) /\
+        itScript it = script /\
+        (exists v : text, tlit (itTok it) = terminate v (itType it)) /\ (exists l : text, HoistProgram.tlabel (ph st) it l)) /\
+       (forall im : impmov,
+        In im (idM impc) ->
+        imCid im = cid c /\
+        imArg im < length (cargs c) /\ imScript im = script /\ imCmdTok im = ctok c /\ (exists l : text, HoistProgram.mlabel (ph st) im l))).
+Proof. exact HoistProgram.compiled_commands_are_patched_commands. Qed.
+Print Assumptions compiled_commands_are_patched_commands.
+
+Theorem compiled_inline_text_argument :
+  forall (hl hd hs : N -> bool) (autovars : list (text * autovar)) (switches : list (text * text)) (fc : Format.fontcfg) 
+    (cli_font : text) (cli_maxlen : Z) (s : text) (p : program),
+  parse_program autovars switches true (Format.parse_format fc cli_font cli_maxlen true) (lex hl hd hs s) = Ok p ->
+  forall (script : text) (c : cmd),
+  In (script, c) (HoistProgram.named_cmds (tops p)) ->
+  exists (c0 : cmd) (impc : impdata),
+    HoistProgram.orig switches true (Format.parse_format fc cli_font cli_maxlen true) (lex hl hd hs s) script c0 impc /\
+    cname c = cname c0 /\
+    ctok c = ctok c0 /\
+    cid c = cid c0 /\
+    (forall (k : nat) (pre0 : list imptext) (it : imptext),
+     filter (HoistProgram.argT k) (idT impc) = pre0 ++ [it] ->
+     filter (HoistProgram.argM k) (idM impc) = [] ->
+     exists (l : text) (x : textdef),
+       nth_error (cargs c) k = Some l /\
+       itScript it = script /\
+       (exists v : text, tlit (itTok it) = terminate v (itType it)) /\
+       In x (texts p) /\
+       xname x = l /\
+       xvalue x = tlit (itTok it) /\
+       xtype x = itType it /\
+       xglob x = false /\
+       (forall y : textdef, In y (texts p) -> xname y = l -> y = x) /\
+       (forall (optimize : bool) (mp : option text) (out : list Emitter.instr),
+        Emitter.emit_program_instrs optimize mp p = Emitter.Ok out ->
+        exists (a : list Emitter.instr) (n : nat) (pre post : list Emitter.instr),
+          out = a ++ Emitter.emit_texts mp (texts p) n /\
+          Emitter.emit_texts mp (texts p) n = pre ++ Emitter.emit_text mp x ++ post /\
+          filter (HoistProgram.is_label l) (Emitter.emit_texts mp (texts p) n) = [Emitter.ILabel l false])).
+Proof. exact HoistProgram.compiled_inline_text_argument. Qed.
+Print Assumptions compiled_inline_text_argument.
+
+Theorem compiled_inline_moves_argument :
+  forall (hl hd hs : N -> bool) (autovars : list (text * autovar)) (switches : list (text * text)) (fc : Format.fontcfg) 
+    (cli_font : text) (cli_maxlen : Z) (s : text) (p : program),
+  parse_program autovars switches true (Format.parse_format fc cli_font cli_maxlen true) (lex hl hd hs s) = Ok p ->
+  forall (script : text) (c : cmd),
+  In (script, c) (HoistProgram.named_cmds (tops p)) ->
+  exists (c0 : cmd) (impc : impdata),
+    HoistProgram.orig switches true (Format.parse_format fc cli_font cli_maxlen true) (lex hl hd hs s) script c0 impc /\
+    cname c = cname c0 /\
+    ctok c = ctok c0 /\
+    cid c = cid c0 /\
+    (forall (k : nat) (pre0 : list impmov) (im : impmov),
+     filter (HoistProgram.argM k) (idM impc) = pre0 ++ [im] ->
+     exists (l : text) (tk : token) (steps : list token),
+       nth_error (cargs c) k = Some l /\
+       imScript im = script /\
+       In (TMovement l false tk steps) (tops p) /\
+       mov_key steps = mov_key (imToks im) /\
+       (Forall no_colon steps -> Forall no_colon (imToks im) -> map tlit steps = map tlit (imToks im)) /\
+       (forall (g' : bool) (tk' : token) (steps' : list token),
+        In (TMovement l g' tk' steps') (tops p) -> g' = false /\ tk' = tk /\ steps' = steps) /\
+       (forall (optimize : bool) (mp : option text) (out : list Emitter.instr),
+        Emitter.emit_program_instrs optimize mp p = Emitter.Ok out ->
+        exists a b : list Emitter.instr, out = a ++ Emitter.emit_movement mp l false tk steps ++ b)).
+Proof. exact HoistProgram.compiled_inline_moves_argument. Qed.
+Print Assumptions compiled_inline_moves_argument.
+
+Theorem compiled_inline_arguments_share_labels :
+  forall (hl hd hs : N -> bool) (autovars : list (text * autovar)) (switches : list (text * text)) (fc : Format.fontcfg) 
+    (cli_font : text) (cli_maxlen : Z) (s : text) (p : program),
+  parse_program autovars switches true (Format.parse_format fc cli_font cli_maxlen true) (lex hl hd hs s) = Ok p ->
+  forall (s1 : text) (c1 : cmd) (s2 : text) (c2 : cmd),
+  In (s1, c1) (HoistProgram.named_cmds (tops p)) ->
+  In (s2, c2) (HoistProgram.named_cmds (tops p)) ->
+  exists (c01 : cmd) (impc1 : impdata) (c02 : cmd) (impc2 : impdata),
+    HoistProgram.orig switches true (Format.parse_format fc cli_font cli_maxlen true) (lex hl hd hs s) s1 c01 impc1 /\
+    cid c1 = cid c01 /\
+    HoistProgram.orig switches true (Format.parse_format fc cli_font cli_maxlen true) (lex hl hd hs s) s2 c02 impc2 /\
+    cid c2 = cid c02 /\
+    (forall (k1 : nat) (p1 : list imptext) (it1 : imptext) (k2 : nat) (p2 : list imptext) (it2 : imptext),
+     filter (HoistProgram.argT k1) (idT impc1) = p1 ++ [it1] ->
+     filter (HoistProgram.argM k1) (idM impc1) = [] ->
+     filter (HoistProgram.argT k2) (idT impc2) = p2 ++ [it2] ->
+     filter (HoistProgram.argM k2) (idM impc2) = [] -> nth_error (cargs c1) k1 = nth_error (cargs c2) k2 <-> tkey it1 = tkey it2) /\
+    (forall (k1 : nat) (p1 : list impmov) (im1 : impmov) (k2 : nat) (p2 : list impmov) (im2 : impmov),
+     filter (HoistProgram.argM k1) (idM impc1) = p1 ++ [im1] ->
+     filter (HoistProgram.argM k2) (idM impc2) = p2 ++ [im2] -> nth_error (cargs c1) k1 = nth_error (cargs c2) k2 <-> mkey im1 = mkey im2).
+Proof. exact HoistProgram.compiled_inline_arguments_share_labels. Qed.
+Print Assumptions compiled_inline_arguments_share_labels.
+
+Theorem compiled_inline_argument_names :
+  forall (hl hd hs : N -> bool) (autovars : list (text * autovar)) (switches : list (text * text)) (fc : Format.fontcfg) 
+    (cli_font : text) (cli_maxlen : Z) (s : text) (p : program),
+  parse_program autovars switches true (Format.parse_format fc cli_font cli_maxlen true) (lex hl hd hs s) = Ok p ->
+  exists imps : list impdata,
+    Forall (parsed_imp autovars switches true (Format.parse_format fc cli_font cli_maxlen true)) imps /\
+    (forall (script : text) (c : cmd),
+     In (script, c) (HoistProgram.named_cmds (tops p)) ->
+     exists (c0 : cmd) (impc : impdata),
+       HoistProgram.orig switches true (Format.parse_format fc cli_font cli_maxlen true) (lex hl hd hs s) script c0 impc /\
+       cid c = cid c0 /\
+       (forall (k : nat) (pre0 : list imptext) (it : imptext),
+        filter (HoistProgram.argT k) (idT impc) = pre0 ++ [it] ->
+        filter (HoistProgram.argM k) (idM impc) = [] ->
+        exists (A : list imptext) (fo : imptext) (B P Q : list imptext),
+          new_texts [] (flat_map idT imps) = A ++ fo :: B /\
+          tkey fo = tkey it /\
+          flat_map idT imps = P ++ fo :: Q /\
+          ~ In (tkey it) (map tkey P) /\ nth_error (cargs c) k = Some (text_label (itScript fo) (owned (itScript fo) (map itScript A)))) /\
+       (forall (k : nat) (pre0 : list impmov) (im : impmov),
+        filter (HoistProgram.argM k) (idM impc) = pre0 ++ [im] ->
+        exists (A : list impmov) (fo : impmov) (B P Q : list impmov),
+          new_movs [] (flat_map idM imps) = A ++ fo :: B /\
+          mkey fo = mkey im /\
+          flat_map idM imps = P ++ fo :: Q /\
+          ~ In (mkey im) (map mkey P) /\ nth_error (cargs c) k = Some (mov_label (imScript fo) (owned (imScript fo) (map imScript A))))).
+Proof. exact HoistProgram.compiled_inline_argument_names. Qed.
+Print Assumptions compiled_inline_argument_names.
+
